@@ -49,6 +49,9 @@ def run(ctx):
     quick_cfgs = ["I1_d0", "I1_d0x", "I1_d1", "I2_d2", "I3_d0", "I3_rel0", "I4_d0x"]
     for c in quick_cfgs + ([] if ctx.quick else ["I2_d0", "I2_d0x"]):
         ctx.mc("MC_SearchImpl", "MC_SearchImpl_%s.cfg" % c, timeout=1800, heap="8g")
+    # refinement: the code-shaped SearchImpl implements the abstract, order-agnostic Search (no depth limit, no deadline)
+    for c in ["I1", "I3"] + ([] if ctx.quick else ["I2"]):
+        ctx.mc("MC_SearchRefine", "MC_SearchRefine_%s.cfg" % c, timeout=3600, heap="10g")
     # R2/R3: the real engine on synthetic grammars
     groups = engine.engine_groups(ctx, depths=(0, 1, 2), seeds=10 if ctx.quick else 40, rels=((1, 1), (1, 2)))
     engine.judge_engine_groups(ctx, groups)
